@@ -370,6 +370,17 @@ pub fn search(suite: &str, a: &[&str]) -> Option<String> {
             if rn != Point::new(x + n * font.character_size.width as i32, y) { return Some(format!("FAIL next position {:?}", rn)); }
             format!("OK {}", nat.map.len())
         }
+        // p_c14_deco_defaults <glyph height>: the helpers for custom fonts follow their documentation
+        // (strikethrough: offset = (h saturating-1)/2, height 1; underline: offset = h + 1, height 1)
+        "p_c14_deco_defaults" => {
+            let h = u(a[0]);
+            let (st, ul) = (DecorationDimensions::default_strikethrough(h), DecorationDimensions::default_underline(h));
+            let want_st = DecorationDimensions::new(if h == 0 { 0 } else { (h - 1) / 2 }, 1);
+            let want_ul = DecorationDimensions::new(h + 1, 1);
+            if st != want_st { return Some(format!("FAIL default_strikethrough({}) = {:?}, documented {:?}", h, st, want_st)); }
+            if ul != want_ul { return Some(format!("FAIL default_underline({}) = {:?}, documented {:?}", h, ul, want_ul)); }
+            "OK 2".to_string()
+        }
         // p_c14_bitmap <font> <digest>: the glyph bitmap of the running library is the committed reference (Proofs/FontGolden.v)
         "p_c14_bitmap" => {
             let (font, _) = match find_font(a[0]) { Some(x) => x, None => return Some("FAIL no such font".into()) };
